@@ -11,6 +11,22 @@ Search (the property itself): replies (stored, undo, direct, retValues; dicts co
 lists as lists) and all tables must be identical in every process, bundle by bundle.
 Partial: sites outside the models (useractions cascades iterating sets of Records whose hash is
 address-based) are only searched.
+
+Multi-item user actions (judged by the direct oracle ONLY - the Lean model starts at the doc-action level and does
+not contain the user-action layer's per-item loops): ONE user action that names several columns / tables / view
+items whose per-item side effects each emit doc actions.  The order of those doc actions must be a function of the
+request, not of the iteration order of a set/dict keyed by strings.  Families (generators m_* below, mixed into the
+"multi" histories, plus fixed witnesses):
+  * data entered into >= 2 still-empty columns (isFormula with blank formula, as AddColumn creates them) of one
+    table by ONE UpdateRecord / BulkUpdateRecord / AddRecord / BulkAddRecord / AddOrUpdateRecord (a pasted block):
+    every empty column is converted (ModifyColumn + _grist_Tables_column updates);
+  * >= 2 columns removed / renamed (colId or label) / retyped / converted by ONE BulkRemoveRecord or
+    BulkUpdateRecord on _grist_Tables_column;
+  * >= 2 tables removed / renamed / switched to onDemand by ONE action on _grist_Tables;
+  * >= 2 widgets / fields / views / pages removed by ONE BulkRemoveRecord on the view metadata.
+Each is followed (often) by the pseudo-bundle [["@undo", k]]: every process applies ITS OWN undo of bundle k, and
+after it replies and data must again be identical.  A situation is counted (ck.count "multi:<tag>") only when the
+parent's run really produced >= 2 per-item doc actions for it.
 """
 import json
 import os
@@ -61,64 +77,709 @@ def setup_set_iteration(h):
     yield [["RenameChoices", t["tableId"], cl[0]["colId"], ren]]
 
 
+# ------------------------------------------------------------------------------------------------------------------
+# multi-item user actions: generators (look at the live document through World, every choice from the history's rng)
+WORDS = ["alpha", "beta", "gamma", "delta", "epsilon", "zeta", "eta", "theta", "iota", "kappa", "lam", "mu", "nu", "xi",
+         "omicron", "pi", "rho", "sigma", "tau", "upsilon", "phi", "chi", "psi", "omega", "amt", "qty", "name2", "note",
+         "when", "who", "Total", "Z9", "k", "w"]
+EMPTY_TYPES = [None, None, None, "Any", "Text", "Numeric", "Int", "Date", "Choice", "Bool"]
+PASTE_VERBS = ["UpdateRecord", "BulkUpdateRecord", "BulkUpdateRecord", "AddRecord", "BulkAddRecord"]
+# AddOrUpdateRecord is used for the LAST paste of a history only: its recorded finding (order of the conversions depends
+# on the hash seed) leaves the processes with different column orders in the schema, so the comparison stops there
+META_COLS, META_TABLES = "_grist_Tables_column", "_grist_Tables"
+VIEW_META = ("_grist_Views_section", "_grist_Views_section_field", "_grist_Views", "_grist_Pages")
+
+
+def _names(rng, used, k):
+  out = []
+  while len(out) < k:
+    n = rng.choice(WORDS) + rng.choice(["", "", "", "_x", str(rng.randint(1, 99))])
+    if n not in used and n not in out:
+      out.append(n)
+  return out
+
+
+def _is_empty(c):
+  return c["isFormula"] and not c["formula"]
+
+
+def _paste_values(rng, typ, n):
+  """n non-blank values for an empty column of type `typ` (None/'Any' = untyped: the engine guesses the type)."""
+  if typ in (None, "Any"):
+    kind = rng.choice(["int", "float", "text", "bool", "mixed", "numtext"])
+  else:
+    kind = {"Text": "text", "Numeric": "float", "Int": "int", "Date": "date", "Choice": "choice", "Bool": "bool"}.get(typ, "mixed")
+  def one():
+    if kind == "int": return rng.randint(1, 50)
+    if kind == "float": return rng.randint(1, 200) / 4.0
+    if kind == "text": return rng.choice(["x", "yy", "foo", "Bar", "q r"])
+    if kind == "bool": return rng.choice([True, False])
+    if kind == "date": return 86400 * rng.randint(1, 20000)
+    if kind == "choice": return rng.choice(["a", "b", "c"])
+    if kind == "numtext": return rng.choice(["12", "3.5", "7"])
+    return rng.choice([1, "t", 2.5, "u"])
+  return [one() for _ in range(n)]
+
+
+def m_paste(h, w, verb=None):
+  """Data entered by ONE record action into >= 2 still-empty columns of one table (a pasted block), possibly
+  together with ordinary data columns; the empty columns are existing ones and/or freshly added ones."""
+  rng, gen = h.rng, h.gen
+  ts = w.user_tables()
+  if not ts:
+    return None
+  t = rng.choice(ts)
+  tid = t["tableId"]
+  used = set(c["colId"] for c in t["cols"])
+  have = [(c["colId"], c["type"]) for c in w.visible_cols(t) if _is_empty(c)]
+  k = rng.choice([2, 2, 3, 3, 4, 5, 6])
+  adds = []
+  if len(have) < k or rng.random() < 0.5:
+    new = _names(rng, used, max(k - (len(have) if rng.random() < 0.5 else 0), 1))
+    for n in new:
+      typ = rng.choice(EMPTY_TYPES)
+      adds.append(["AddColumn", tid, n, ({"type": typ} if typ else {})])
+      have.append((n, typ))
+  cols = rng.sample(have, min(len(have), k))
+  verb = verb or rng.choice(PASTE_VERBS)
+  if not t["rows"] and verb in ("UpdateRecord", "BulkUpdateRecord"):
+    verb = rng.choice(["AddRecord", "BulkAddRecord"])
+  plain = [c for c in w.data_cols(t) if not c["isFormula"] and c["type"].split(":")[0] not in ("Ref", "RefList")]
+  extra = rng.sample(plain, min(len(plain), rng.choice([0, 0, 1, 2])))
+  if verb in ("UpdateRecord", "AddRecord", "AddOrUpdateRecord"):
+    n = 1
+  elif verb == "BulkUpdateRecord":
+    n = rng.randint(1, min(4, len(t["rows"])))
+  else:
+    n = rng.randint(2, 4)
+  items = [(c, _paste_values(rng, typ, n)) for c, typ in cols] + \
+          [(c["colId"], [gen.value_for(w, c, allow_bad=False) for _ in range(n)]) for c in extra]
+  rng.shuffle(items)
+  vals = dict(items)
+  one = dict((c, v[0]) for c, v in items)
+  if verb == "UpdateRecord":
+    ua = ["UpdateRecord", tid, rng.choice(t["rows"]), one]
+  elif verb == "BulkUpdateRecord":
+    ua = ["BulkUpdateRecord", tid, rng.sample(t["rows"], n), vals]
+  elif verb == "AddRecord":
+    ua = ["AddRecord", tid, None, one]
+  elif verb == "BulkAddRecord":
+    ua = ["BulkAddRecord", tid, [None] * n, vals]
+  else:
+    keyc = [c for c in plain if c["colId"] not in one]
+    if keyc:
+      kc = rng.choice(keyc)
+      ua = ["AddOrUpdateRecord", tid, {kc["colId"]: gen.value_for(w, kc, allow_bad=False)}, one, {}]
+    else:
+      ua = ["AddRecord", tid, None, one]
+  if not adds:
+    return [[ua]]
+  r = rng.random()
+  if r < 0.4:
+    return [adds + [ua]]                      # the columns are added and filled within one bundle
+  if r < 0.7:
+    return [adds, [ua]]
+  return [[a] for a in adds] + [[ua]]
+
+
+def _col_cands(w, tables):
+  out = []
+  for t in tables:
+    for c in w.visible_cols(t):
+      if not c["summarySourceCol"] and c["colId"] != "group":
+        out.append(c)
+  return out
+
+
+def m_cols(h, w):
+  """ONE BulkRemoveRecord / BulkUpdateRecord on _grist_Tables_column naming >= 2 columns (of one table, sometimes of
+  two tables): removal, renaming through colId or label, type change, formula<->data conversion, formula change."""
+  rng = h.rng
+  ts = list(w.tables.values()) if rng.random() < 0.25 else w.user_tables()
+  if not ts:
+    return None
+  ts = rng.sample(ts, min(len(ts), rng.choice([1, 1, 1, 2])))
+  cands = _col_cands(w, ts)
+  if len(cands) < 2:
+    t = ts[0]
+    return [[["AddColumn", t["tableId"], n, {"type": rng.choice(["Text", "Int", "Numeric"]), "isFormula": False}]
+             for n in _names(rng, set(c["colId"] for c in t["cols"]), 3)]]
+  op = rng.choice(["remove", "remove", "rename", "rename", "label", "retype", "to_data", "formula"])
+  if op == "to_data":
+    fc = [c for c in cands if c["isFormula"]]
+    cands = fc if len(fc) >= 2 else cands
+    if len(fc) < 2:
+      op = "retype"
+  if op == "formula":
+    fc = [c for c in cands if c["isFormula"]]
+    if len(fc) < 2:
+      op = "rename"
+    else:
+      cands = fc
+  k = min(len(cands), rng.choice([2, 2, 3, 3, 4, 5]))
+  if op == "remove" and len(ts) == 1 and len(cands) - k < 1 and k > 2:
+    k -= 1
+  cols = rng.sample(cands, k)
+  refs = [c["ref"] for c in cols]
+  if op == "remove":
+    return [[["BulkRemoveRecord", META_COLS, refs]]]
+  if op in ("rename", "label"):
+    used = set(c["colId"] for t in ts for c in t["cols"])
+    new = _names(rng, used, k)
+    if rng.random() < 0.15:
+      new[1] = new[0]               # two columns renamed to the same name: the engine must disambiguate
+    return [[["BulkUpdateRecord", META_COLS, refs, {"colId" if op == "rename" else "label": new}]]]
+  if op == "retype":
+    return [[["BulkUpdateRecord", META_COLS, refs, {"type": [rng.choice(["Text", "Int", "Numeric", "Any", "Choice"])
+                                                               for _ in cols]}]]]
+  if op == "to_data":
+    return [[["BulkUpdateRecord", META_COLS, refs, {"isFormula": [False] * k}]]]
+  return [[["BulkUpdateRecord", META_COLS, refs, {"formula": [rng.choice(["$id", "$id * 2", "'f%s' % $id", "1"]) for _ in cols]}]]]
+
+
+def m_tables(h, w):
+  """ONE BulkRemoveRecord / BulkUpdateRecord on _grist_Tables naming >= 2 tables (removal, renaming, onDemand with
+  empty columns to convert).  Builds further tables (with references into the existing ones, formulas that name other
+  tables and empty columns) while there are fewer than three."""
+  rng, gen = h.rng, h.gen
+  ts = w.user_tables()
+  if len(ts) < 3 or (len(ts) < 5 and rng.random() < 0.35):
+    name = _names(rng, set(w.tables), 1)[0].capitalize() + "T"
+    cn = _names(rng, set(), 4)
+    cols = [{"id": cn[0], "type": rng.choice(["Text", "Int", "Choice"]), "isFormula": False, "formula": ""},
+            {"id": cn[1], "type": "Any", "isFormula": True, "formula": ""}]
+    if ts:
+      tgt = rng.choice(ts)
+      cols.append({"id": cn[2], "type": "%s:%s" % (rng.choice(["Ref", "RefList"]), tgt["tableId"]), "isFormula": False,
+                   "formula": ""})
+      cols.append({"id": cn[3], "type": "Any", "isFormula": True, "formula": "len(%s.lookupRecords())" % tgt["tableId"]})
+    else:
+      cols.append({"id": cn[2], "type": "Any", "isFormula": True, "formula": ""})
+    return [[["AddTable", name, cols], ["BulkAddRecord", name, [None, None], {cn[0]: [gen.value_for(w, cols[0], False),
+                                                                                      gen.value_for(w, cols[0], False)]}]]]
+  op = rng.choice(["remove", "rename", "rename", "ondemand"])
+  k = min(len(ts) - (1 if op == "remove" else 0), rng.choice([2, 2, 3]))
+  pick = rng.sample(ts, k)
+  refs = [t["ref"] for t in pick]
+  if op == "remove":
+    return [[["BulkRemoveRecord", META_TABLES, refs]]]
+  if op == "rename":
+    new = [n.capitalize() + "R" for n in _names(rng, set(x.lower() for x in w.tables), k)]
+    return [[["BulkUpdateRecord", META_TABLES, refs, {"tableId": new}]]]
+  pre = []
+  for t in pick:
+    if sum(1 for c in w.visible_cols(t) if _is_empty(c)) < 2:
+      pre.extend(["AddColumn", t["tableId"], n, {}] for n in _names(rng, set(c["colId"] for c in t["cols"]), 2))
+  out = [pre] if pre else []
+  return out + [[["BulkUpdateRecord", META_TABLES, refs, {"onDemand": [True] * k}]]]
+
+
+def m_views(h, w):
+  """ONE BulkRemoveRecord naming >= 2 widgets / fields / views / pages; builds pages and widgets while scarce."""
+  rng = h.rng
+  secs = [s for s in w.sections if s.get("parentId")]
+  tables = [t for t in w.tables.values()]
+  if len(secs) < 3 and tables:
+    t = rng.choice(tables)
+    return [[["CreateViewSection", t["ref"], 0, "record", None, None]],
+            [["CreateViewSection", rng.choice(tables)["ref"], rng.choice([0] + [v["id"] for v in w.views]), "detail", None, None]]]
+  op = rng.choice(["sections", "fields", "fields", "views", "pages"])
+  if op == "sections":
+    return [[["BulkRemoveRecord", "_grist_Views_section", [s["id"] for s in rng.sample(secs, rng.choice([2, 2, 3]))]]]]
+  if op == "fields":
+    ok = set(s["id"] for s in secs)
+    fs = [f["id"] for f in w.fields if f.get("parentId") in ok]
+    if len(fs) >= 2:
+      return [[["BulkRemoveRecord", "_grist_Views_section_field", rng.sample(fs, min(len(fs), rng.choice([2, 3, 4])))]]]
+  if op == "views" and len(w.views) >= 3:
+    return [[["BulkRemoveRecord", "_grist_Views", [v["id"] for v in rng.sample(w.views, 2)]]]]
+  if len(w.pages) >= 3:
+    return [[["BulkRemoveRecord", "_grist_Pages", [p["id"] for p in rng.sample(w.pages, 2)]]]]
+  return None
+
+
+def m_decor(h, w):
+  """Things that make the cascades of the bulk actions non-trivial: conditional-style rules on several columns,
+  formulas that read several columns, sort specs that name several columns."""
+  rng = h.rng
+  ts = w.user_tables()
+  if not ts:
+    return None
+  t = rng.choice(ts)
+  vis = w.visible_cols(t)
+  if len(vis) < 2:
+    return None
+  r = rng.random()
+  if r < 0.4:
+    return [[["AddEmptyRule", t["tableId"], None, c["ref"]] for c in rng.sample(vis, min(len(vis), 3))]]
+  if r < 0.8:
+    a = rng.sample(vis, min(len(vis), 3))
+    f = "[%s]" % ", ".join("$" + c["colId"] for c in a)
+    return [[["AddColumn", t["tableId"], _names(rng, set(c["colId"] for c in t["cols"]), 1)[0],
+              {"type": "Any", "isFormula": True, "formula": f}]]]
+  cards = set(x.get("recordCardViewSectionRef") for x in h.doc.meta("_grist_Tables"))      # not modifiable
+  secs = [s for s in w.sections if s.get("tableRef") == t["ref"] and s["id"] not in cards]
+  if not secs:
+    return None
+  spec = json.dumps([c["ref"] * rng.choice([1, -1]) for c in rng.sample(vis, min(len(vis), 3))])
+  return [[["BulkUpdateRecord", "_grist_Views_section", [s["id"] for s in secs], {"sortColRefs": [spec] * len(secs)}]]]
+
+
+MULTI_WEIGHTS = {"m_paste": 10, "m_cols": 7, "m_tables": 4, "m_views": 2, "m_decor": 3}
+
+
+def situations(uas, res):
+  """Tags of the multi-item situations that one bundle REALLY exercised: named by the request and confirmed by
+  >= 2 per-item doc actions among the stored actions of the (successful) bundle."""
+  tags = set()
+  if not res.ok:
+    return tags
+  st = res.raw_stored
+  def n_of(name, pred=lambda a: True):
+    return len(set(json.dumps(a[1:3], default=repr) for a in st if a[0] == name and pred(a)))
+  for ua in uas:
+    name, tid = ua[0], (ua[1] if len(ua) > 1 else None)
+    if not isinstance(tid, str):
+      continue
+    if name in ("UpdateRecord", "BulkUpdateRecord", "AddRecord", "BulkAddRecord", "AddOrUpdateRecord") \
+       and not tid.startswith("_grist_"):
+      named = set(ua[3]) if isinstance(ua[3], dict) else set()
+      if name == "AddOrUpdateRecord" and isinstance(ua[2], dict):
+        named |= set(ua[2])
+      conv = set(a[2] for a in st if a[0] == "ModifyColumn" and a[1] == tid and a[2] in named
+                 and isinstance(a[3], dict) and a[3].get("isFormula") is False)
+      if len(conv) >= 2:
+        tags.add("empty_cols_filled:" + name)
+    elif tid == META_COLS and name in ("BulkRemoveRecord", "BulkUpdateRecord") and len(ua[2]) >= 2:
+      if name == "BulkRemoveRecord":
+        if n_of("RemoveColumn") >= 2:
+          tags.add("cols_removed")
+      else:
+        keys = set(ua[3])
+        if keys & {"colId", "label"} and n_of("RenameColumn") >= 2:
+          tags.add("cols_renamed")
+        if keys & {"type", "isFormula", "formula"} and n_of("ModifyColumn") >= 2:
+          tags.add("cols_modified")
+    elif tid == META_TABLES and name in ("BulkRemoveRecord", "BulkUpdateRecord") and len(ua[2]) >= 2:
+      if name == "BulkRemoveRecord":
+        if n_of("RemoveTable") >= 2:
+          tags.add("tables_removed")
+      else:
+        if "tableId" in ua[3] and n_of("RenameTable") >= 2:
+          tags.add("tables_renamed")
+        if "onDemand" in ua[3] and n_of("ModifyColumn") >= 2:
+          tags.add("tables_ondemand_empty_cols")
+    elif tid in VIEW_META and name == "BulkRemoveRecord" and len(ua[2]) >= 2:
+      if sum(len(a[2]) for a in st if a[0] == "BulkRemoveRecord" and a[1] in VIEW_META) + \
+         sum(1 for a in st if a[0] == "RemoveRecord" and a[1] in VIEW_META) >= 2:
+        tags.add("view_items_removed")
+  return tags
+
+
+class Multi(object):
+  """One 'multi' history: a few tables with rows, then mostly multi-item bundles mixed with the ordinary generator,
+  many of them followed by the undo pseudo-bundle."""
+  def __init__(self, rng, n_steps):
+    from gx.hist_run import HistoryRun
+    self.h = HistoryRun(rng, profile=PROFILE, n_bundles=0, oracles=())
+    self.rng = rng
+    self.n_steps = n_steps
+    self.tags = {}            # log index -> sorted tags
+
+  def apply(self, uas):
+    h = self.h
+    rec = h.apply(uas, ["multi"])
+    tg = situations(uas, rec["res"])
+    if tg:
+      self.tags[rec["log_index"]] = sorted(tg)
+    return rec
+
+  def undo(self, rec):
+    """Pseudo-bundle: every process undoes bundle k with ITS OWN undo list."""
+    h, res = self.h, rec["res"]
+    if not res.ok or not res.raw_undo:
+      return
+    h.doc.apply([["ApplyUndoActions", res.raw_undo]])
+    h.log.append([["@undo", rec["log_index"]]])
+
+  def run(self):
+    from gx.gen_hist import World
+    h, rng = self.h, self.rng
+    for b in h.gen.initial_bundles(n_tables=rng.choice([2, 3])):
+      self.apply(b)
+    for t in World(h.doc).user_tables():
+      w = World(h.doc)
+      k = rng.randint(2, 4)
+      self.apply([["BulkAddRecord", t["tableId"], [None] * k,
+                   dict((c["colId"], [h.gen.value_for(w, c, False) for _ in range(k)]) for c in w.data_cols(t))]])
+    for _ in range(self.n_steps):
+      w = World(h.doc)
+      if rng.random() < 0.2:
+        uas, _kinds = h.gen.bundle(h.doc)
+        if uas:
+          self.apply(uas)
+        continue
+      from gx.gen_hist import wchoice
+      bundles = globals()[wchoice(rng, MULTI_WEIGHTS)](h, w)
+      if not bundles:
+        continue
+      for b in bundles:
+        rec = self.apply(b)
+      r = rng.random()
+      if r < 0.45:
+        self.undo(rec)
+        if rng.random() < 0.5:
+          self.apply(bundles[-1])            # the same request again, on the restored document
+    if rng.random() < 0.6:
+      for b in m_paste(h, World(h.doc), verb="AddOrUpdateRecord") or []:
+        rec = self.apply(b)
+      self.undo(rec)
+    return self
+
+
+def witnesses():
+  """Fixed histories (no randomness): the smallest documents that reach every multi-item family."""
+  cols5 = ["alpha", "beta", "gamma", "delta", "epsilon"]
+  base = [[["AddTable", "T", [{"id": "name", "type": "Text", "isFormula": False, "formula": ""},
+                              {"id": "size", "type": "Any", "isFormula": True, "formula": "len($name)"}]]],
+          [["BulkAddRecord", "T", [None, None, None], {"name": ["x", "yy", "zzz"]}]]]
+  def fresh(cols, typed=False):
+    return [[["AddColumn", "T", c, ({"type": ["Text", "Numeric", "Int"][i % 3]} if typed else {})]] for i, c in enumerate(cols)]
+  def block(cols, n):
+    return dict((c, [("%s-%d" % (c, r) if i % 2 == 0 else 10 * i + r) for r in range(1, n + 1)]) for i, c in enumerate(cols))
+  out = []
+  # 1. a block pasted into five fresh columns by BulkUpdateRecord; undone; entered again row by row
+  h = base + fresh(cols5)
+  h.append([["BulkUpdateRecord", "T", [1, 2, 3], block(cols5, 3)]])
+  h.append([["@undo", len(h) - 1]])
+  h.append([["UpdateRecord", "T", 2, dict((c, v[0]) for c, v in block(list(reversed(cols5)), 1).items())]])
+  out.append(h)
+  # 2. new records that bring values for several fresh columns (typed and untyped)
+  c4 = ["omega", "psi", "chi", "phi"]
+  h = base + fresh(c4, typed=True)
+  h.append([["AddRecord", "T", None, {"psi": 2.5, "omega": "o", "name": "n", "phi": "p", "chi": 4}]])
+  h.append([["@undo", len(h) - 1]])
+  h.append([["BulkAddRecord", "T", [None, None], {"chi": [1, 2], "phi": ["a", "b"], "omega": ["c", "d"], "psi": [0.5, 1.5]}]])
+  h.append([["@undo", len(h) - 1]])
+  h.append([["AddOrUpdateRecord", "T", {"name": "yy"}, {"phi": "u", "psi": 7, "chi": 8, "omega": "w"}, {}]])
+  out.append(h)
+  # 3. several columns renamed / retyped / removed by one action on _grist_Tables_column (refs: name=2, size=3, then 4..)
+  c3 = ["kappa", "lam", "mu"]
+  h = base + [[["AddColumn", "T", c, {"type": "Int", "isFormula": False}] for c in c3],
+              [["AddColumn", "T", "tot", {"type": "Any", "isFormula": True, "formula": "$kappa + $lam + $mu"}]],
+              [["AddEmptyRule", "T", None, 4], ["AddEmptyRule", "T", None, 5], ["AddEmptyRule", "T", None, 6]]]
+  h.append([["BulkUpdateRecord", META_COLS, [6, 4, 5], {"colId": ["zeta", "eta", "theta"]}]])
+  h.append([["@undo", len(h) - 1]])
+  h.append([["BulkUpdateRecord", META_COLS, [5, 6, 4], {"label": ["Rho", "Sigma", "Tau"]}]])
+  h.append([["BulkUpdateRecord", META_COLS, [4, 6, 5], {"type": ["Text", "Numeric", "Text"]}]])
+  h.append([["BulkRemoveRecord", META_COLS, [6, 4, 5]]])
+  h.append([["@undo", len(h) - 1]])
+  out.append(h)
+  # 4. several tables renamed / switched to onDemand / removed by one action on _grist_Tables
+  h = []
+  for i, tn in enumerate(["Orders", "Items", "People"]):
+    cols = [{"id": "k", "type": "Text", "isFormula": False, "formula": ""},
+            {"id": "e1", "type": "Any", "isFormula": True, "formula": ""},
+            {"id": "e2", "type": "Any", "isFormula": True, "formula": ""}]
+    if i:
+      cols.append({"id": "r", "type": "Ref:Orders", "isFormula": False, "formula": ""})
+      cols.append({"id": "n", "type": "Any", "isFormula": True, "formula": "len(Orders.lookupRecords(k=$k))"})
+    h.append([["AddTable", tn, cols], ["BulkAddRecord", tn, [None, None], {"k": ["a", "b"]}]])
+  h.append([["BulkUpdateRecord", META_TABLES, [3, 1, 2], {"tableId": ["Persons", "Purchases", "Things"]}]])
+  h.append([["@undo", len(h) - 1]])
+  h.append([["BulkUpdateRecord", META_TABLES, [2, 3, 1], {"onDemand": [True, True, True]}]])
+  h.append([["@undo", len(h) - 1]])
+  h.append([["BulkRemoveRecord", META_TABLES, [3, 2]]])
+  h.append([["@undo", len(h) - 1]])
+  out.append(h)
+  # 5. / 6. cascades that go through sets of Records: columns named by the sort specs of several widgets removed by one
+  #    action (recorded finding); a group-by source column of three summary tables renamed (the summary tables are
+  #    renamed: in set order until the fix dbe5f92 in /repo, a regression witness since)
+  h = [[["AddTable", "S", [{"id": "a", "type": "Text", "isFormula": False, "formula": ""},
+                           {"id": "b", "type": "Text", "isFormula": False, "formula": ""},
+                           {"id": "c", "type": "Int", "isFormula": False, "formula": ""}]]],
+       [["BulkAddRecord", "S", [None, None, None], {"a": ["x", "y", "x"], "b": ["p", "p", "q"], "c": [1, 2, 3]}]],
+       [["CreateViewSection", 1, 0, "record", None, None]], [["CreateViewSection", 1, 0, "record", None, None]],
+       [["CreateViewSection", 1, 0, "record", None, None]],
+       [["BulkUpdateRecord", "_grist_Views_section", [1, 2, 4, 5, 6], {"sortColRefs": ["[3, 4]", "[4]", "[-3]", "[4, 3]", "[3]"]}]],
+       [["BulkRemoveRecord", META_COLS, [4, 3]]]]
+  h.append([["@undo", len(h) - 1]])
+  out.append(h)
+  h = h[:2]
+  h += [[["CreateViewSection", 1, 0, "record", [2], None]], [["CreateViewSection", 1, 0, "record", [2, 3], None]],
+        [["CreateViewSection", 1, 0, "record", [2, 4], None]],
+        [["UpdateRecord", META_COLS, 2, {"label": "Area"}]]]
+  h.append([["@undo", len(h) - 1]])
+  out.append(h)
+  return out
+
+
+def run_witness(hist):
+  """Parent-side run of a fixed history (for the situation tags and the counters)."""
+  from gx import engine_driver as ed
+  doc = ed.Doc()
+  tags, undo, n_ok = {}, {}, 0
+  for bi, b in enumerate(hist):
+    if b[0][0] == "@undo":
+      if undo.get(b[0][1]):
+        doc.apply([["ApplyUndoActions", undo[b[0][1]]]], record=False)
+      continue
+    r = doc.apply(b, record=False)
+    n_ok += bool(r.ok)
+    undo[bi] = r.raw_undo if r.ok else None
+    tg = situations(b, r)
+    if tg:
+      tags[bi] = sorted(tg)
+  return tags, n_ok
+
+
+# ------------------------------------------------------------------------------------------------------------------
+CHILD = ["/venv/bin/python", "-m", "gx.props.c30"]
+
+
+def _head(a):
+  x = a[2] if len(a) > 2 else None
+  if isinstance(x, list):
+    x = x[:64] if all(isinstance(i, int) for i in x) else None
+  elif not isinstance(x, (str, int)):
+    x = None
+  extra = sorted(a[3]) if len(a) > 3 and isinstance(a[3], dict) and a[0] in ("ModifyColumn", "BulkUpdateRecord", "UpdateRecord") else None
+  return [a[0], a[1] if len(a) > 1 else None, x, extra]
+
+
+def child_main():
+  """Child process: replays the histories given on stdin on fresh engines under THIS process's PYTHONHASHSEED; per
+  bundle: digest of the reply, digest of all tables, and the heads of the stored / undo actions (for the report)."""
+  import hashlib
+  common.setup_repo_path()
+  from gx import engine_driver as ed
+  hists = json.load(sys.stdin)
+  out = []
+  for hist in hists:
+    doc = ed.Doc()
+    res_list = []
+    undos = {}
+    for bi, b in enumerate(hist):
+      if len(b) == 1 and b[0] and b[0][0] == "@undo":
+        u = undos.get(b[0][1])
+        if not u:
+          res_list.append(["no-undo", res_list[-1][1] if res_list else "", [], []])
+          continue
+        b = [["ApplyUndoActions", u]]
+      r = doc.apply(b, record=False)
+      undos[bi] = r.raw_undo if r.ok else None
+      reply = [r.ok, (r.error[0] if r.error else None), r.raw_stored, r.raw_undo, r.direct, r.ret]
+      rep = json.dumps(reply, sort_keys=True, default=repr)
+      snap = json.dumps(doc.snapshot(), sort_keys=True)
+      res_list.append([hashlib.sha1(rep.encode()).hexdigest(), hashlib.sha1(snap.encode()).hexdigest(),
+                       [_head(a) for a in (r.raw_stored or [])] if r.ok else [r.error[0]],
+                       [_head(a) for a in (r.raw_undo or [])] if r.ok else []])
+    out.append(res_list)
+  json.dump(out, sys.stdout)
+
+
+def _first_diff(a, b, s0, s1):
+  """Human-readable first difference between two per-bundle child results."""
+  for what, i in (("stored", 2), ("undo", 3)):
+    x, y = a[i], b[i]
+    for j in range(max(len(x), len(y))):
+      p, q = (x[j] if j < len(x) else None), (y[j] if j < len(y) else None)
+      if p != q:
+        cols = lambda l: [e[2] for e in l if e and e[0] in ("ModifyColumn", "RemoveColumn", "RenameColumn", "RemoveTable", "RenameTable")
+                          and isinstance(e[2], str)][:8]
+        return "%s[%d]: %r under seed %s vs %r under seed %s; order of per-item schema actions: %r vs %r" % (
+          what, j, p, s0, q, s1, cols(x), cols(y))
+  if a[0] != b[0]:
+    return "same action heads, different values inside the stored/undo/direct/retValues lists"
+  return "replies identical, table contents differ"
+
+
+UPSERT_SIG = ("reply differs between PYTHONHASHSEED values only in the ORDER of the empty-column conversions made by one "
+              "[Bulk]AddOrUpdateRecord whose values name several still-empty columns (data identical)")
+SORTSPEC_ROWS_SIG = ("reply differs between processes only in the ROW ORDER of the BulkUpdateRecord that rewrites sortColRefs "
+                     "of several widgets when columns are removed (data identical)")
+UPSERT_TAGS = ("empty_cols_filled:AddOrUpdateRecord", "empty_cols_filled:BulkAddOrUpdateRecord")
+
+
+def order_only_findings(tg, a, b, tid_cols):
+  """Attribution of a cross-process difference to the recorded order-only findings.  Returns the set of their
+  signatures, or None when the difference is not FULLY explained by them.  Common conditions: all tables identical;
+  the stored lists (and the undo lists) contain the same actions (as multisets of heads, the row list of a sortColRefs
+  update taken as a set); once the actions below are taken out, the remaining sequences are identical:
+   * upsert: only if the bundle's sole multi-item situation is an [Bulk]AddOrUpdateRecord filling several empty
+     columns - ModifyColumn of a column named by it, updates of _grist_Tables_column, the update of the table that
+     rewrites ONE named column with its converted values;
+   * sort specs: BulkUpdateRecord of _grist_Views_section that sets sortColRefs only (row order ignored)."""
+  if a[1] != b[1]:
+    return None
+  key = lambda e: json.dumps(e, sort_keys=True)
+  upsert_ok = bool(tg) and all(t in UPSERT_TAGS for t in tg)
+  def is_sort(e):
+    return e[0] == "BulkUpdateRecord" and e[1] == "_grist_Views_section" and e[3] == ["sortColRefs"] and isinstance(e[2], list)
+  def is_conv(e):
+    return upsert_ok and ((e[0] == "ModifyColumn" and (e[1], e[2]) in tid_cols) or
+                          (e[0] in ("UpdateRecord", "BulkUpdateRecord") and e[1] == META_COLS) or
+                          (e[0] in ("UpdateRecord", "BulkUpdateRecord") and e[3] and len(e[3]) == 1 and (e[1], e[3][0]) in tid_cols))
+  def norm(l):
+    return [[e[0], e[1], sorted(e[2]), e[3]] if is_sort(e) else e for e in l]
+  found = set()
+  for i in (2, 3):
+    x, y = a[i], b[i]
+    if any(not isinstance(e, list) for e in x + y):         # an error reply
+      return None
+    if sorted(map(key, norm(x))) != sorted(map(key, norm(y))):
+      return None
+    if [e for e in norm(x) if not is_conv(e)] != [e for e in norm(y) if not is_conv(e)]:
+      return None
+    if [e for e in x if is_sort(e)] != [e for e in y if is_sort(e)]:
+      found.add(SORTSPEC_ROWS_SIG)
+    if [e for e in x if is_conv(e)] != [e for e in y if is_conv(e)]:
+      found.add(UPSERT_SIG)
+  return found or None
+
+
+def _upsert_cols(bundle):
+  out = set()
+  for ua in bundle:
+    if ua[0] in ("AddOrUpdateRecord", "BulkAddOrUpdateRecord") and isinstance(ua[2], dict) and isinstance(ua[3], dict):
+      out |= set((ua[1], c) for c in list(ua[2]) + list(ua[3]))
+  return out
+
+
 def run(ck):
+  import concurrent.futures
   common.setup_repo_path()
   from gx.hist_run import HistoryRun
   ck.rule = ("seeded histories generated once in the parent process and replayed in separate processes under "
-             "PYTHONHASHSEED in {0,1,2} (quick) or 12 values (thorough) plus 'random'; non-trivial = history with at "
-             "least 8 successful bundles; distinct by history")
+             "PYTHONHASHSEED in {0,1,2} (quick) or 11 values plus 'random' (thorough): general histories, 'multi' histories "
+             "(mostly multi-item user actions, many followed by an undo pseudo-bundle) and six fixed witness histories; "
+             "non-trivial = history with at least 8 successful bundles; distinct by history")
   ck.assumptions = ["documents without time- or randomness-dependent formulas (generator emits none)",
-                    "error replies are compared by exception class"]
+                    "error replies are compared by exception class",
+                    "multi-item user actions (one record action filling several empty columns; one action on "
+                    "_grist_Tables_column / _grist_Tables / view metadata naming several columns / tables / widgets) are "
+                    "judged by the direct oracle only (cross-process equality of replies and data, bundle by bundle): the "
+                    "Lean model starts below the user-action layer and does not contain its per-item loops",
+                    "the undo pseudo-bundle applies, in every process, that process's own undo list of the named bundle",
+                    "the comparison of a history under one pair of processes stops at the first difference, also when it is fully "
+                    "attributed to the recorded order-only findings (AddOrUpdateRecord conversions, sortColRefs row "
+                    "order): the tables are identical then, but the order of columns / tables in the schema may "
+                    "not be; AddOrUpdateRecord pastes are therefore generated as the last step of a multi history only"]
   ck.lean(["GristProps.C30"])
-  n_hist = 8 if ck.tier == "quick" else 200
-  seeds = ["0", "1", "2"] if ck.tier == "quick" else [str(i) for i in range(11)] + ["random"]
-  hists = []
+  quick = ck.tier == "quick"
+  n_hist = 8 if quick else 200
+  n_multi = 6 if quick else 60
+  seeds = ["0", "1", "2"] if quick else [str(i) for i in range(11)] + ["random"]
+  extra_seeds = []                                        # (optional) further seeds for the multi-item histories only
+  per_job = 8 if quick else 16
+  hists, tagmap = [], []
+  pool = concurrent.futures.ThreadPoolExecutor(max_workers=min(14, (os.cpu_count() or 2)))
+  futs = []
+
+  def child(s, idxs):
+    p = subprocess.run(CHILD, input=json.dumps([hists[hi] for hi in idxs]), stdout=subprocess.PIPE, stderr=subprocess.PIPE,
+                       env=dict(os.environ, PYTHONHASHSEED=s), text=True, timeout=3000)
+    return s, idxs, p.returncode, p.stdout, p.stderr
+
+  def submit(idxs, ss):
+    for s in ss:
+      for i in range(0, len(idxs), per_job):
+        futs.append(pool.submit(child, s, idxs[i:i + per_job]))
+
   for i in range(n_hist):
     h = HistoryRun(random.Random("%s/%s/%d" % (PROP, ck.seed, i)), profile=PROFILE, n_bundles=14, oracles=())
     if i % 2 == 1:
       h.setup = setup_set_iteration
     h.run()
     hists.append(h.log)
+    tags = {}
+    for rec in h.bundles:
+      tg = situations(rec["actions"], rec["res"])
+      if tg:
+        tags[rec["log_index"]] = sorted(tg)
+    tagmap.append(tags)
     if h.stats["ok"] >= 8:
       ck.nontrivial_case(h.log)
     ck.evaluated(len(h.log))
+    if len(hists) % per_job == 0 or i == n_hist - 1:
+      submit(list(range(len(hists) - ((len(hists) - 1) % per_job) - 1, len(hists))), seeds)
   ck.sample({"history_head": hists[0][:4], "hash_seeds": seeds})
-  chunks = [hists[i::4] for i in range(4)] if ck.tier != "quick" else [hists]
+  n_general = len(hists)
+  for wh in witnesses():
+    tags, n_ok = run_witness(wh)
+    hists.append(wh)
+    tagmap.append(tags)
+    ck.count("witness_histories")
+    if n_ok >= 8:
+      ck.nontrivial_case(wh)
+    ck.evaluated(len(wh))
+  n_sub = n_general
+  for i in range(n_multi):
+    m = Multi(random.Random("%s/multi/%s/%d" % (PROP, ck.seed, i)), n_steps=10).run()
+    hists.append(m.h.log)
+    tagmap.append(m.tags)
+    ck.count("multi_histories")
+    if m.h.stats["ok"] >= 8:
+      ck.nontrivial_case(m.h.log)
+    ck.evaluated(len(m.h.log))
+    if m.tags:
+      bi = min(m.tags)
+      ck.sample({"multi_item_bundle": m.h.log[bi], "situations": m.tags[bi]}, limit=6)
+    if len(hists) - n_sub >= per_job or i == n_multi - 1:
+      submit(list(range(n_sub, len(hists))), seeds + extra_seeds)
+      n_sub = len(hists)
+  for hi, tags in enumerate(tagmap):
+    for bi, tg in tags.items():
+      ck.count("multi_item_bundles")
+      for t in tg:
+        ck.count("multi:" + t + ("" if hi >= n_general else " (general histories)"))
+    ck.count("undo_pseudo_bundles", sum(1 for b in hists[hi] if b[0][0] == "@undo"))
   results = {}
-  procs = []
-  for s in seeds:
-    for ci, chunk in enumerate(chunks):
-      env = dict(os.environ, PYTHONHASHSEED=s)
-      p = subprocess.Popen(["/venv/bin/python", "-m", "gx.c30_child"], stdin=subprocess.PIPE, stdout=subprocess.PIPE,
-                           stderr=subprocess.PIPE, env=env, text=True)
-      procs.append((s, ci, p, chunk))
-      if len(procs) >= 12:
-        _drain(procs, results)
-  _drain(procs, results)
-  ck.count("processes", len(seeds) * len(chunks))
-  base = seeds[0]
-  for ci, chunk in enumerate(chunks):
-    for hi, hist in enumerate(chunk):
-      ref = results[(base, ci)][hi]
-      for s in seeds[1:]:
-        got = results[(s, ci)][hi]
-        for bi, (a, b) in enumerate(zip(ref, got)):
-          if a != b:
-            what = "reply (stored/undo/direct/retValues)" if a[0] != b[0] else "table data"
-            acts = "+".join(sorted(set(x[0] for x in hist[bi])))
-            ck.violation("%s differs between PYTHONHASHSEED values after %s" % (what, acts),
-                         "bundle %d of history; seeds %s vs %s" % (bi, base, s),
-                         {"history": hist[:bi + 1], "hash_seeds": [base, s], "bundle_index": bi})
-            break
-
-
-def _drain(procs, results):
-  for (s, ci, p, chunk) in procs:
-    out, err = p.communicate(json.dumps(chunk), timeout=3000)
-    if p.returncode != 0:
+  for f in futs:
+    s, idxs, rc, out, err = f.result()
+    if rc != 0:
       raise common.Infra("c30 child failed (seed %s): %s" % (s, err[-500:]))
-    results[(s, ci)] = json.loads(out)
-  del procs[:]
+    try:
+      res = json.loads(out)
+    except ValueError:
+      raise common.Infra("c30 child (seed %s) printed no JSON: %s" % (s, (out[-200:] + err[-300:])))
+    if len(res) != len(idxs):
+      raise common.Infra("c30 child (seed %s) answered %d of %d histories" % (s, len(res), len(idxs)))
+    for hi, r in zip(idxs, res):
+      results[(s, hi)] = r
+  pool.shutdown()
+  ck.count("processes", len(futs))
+  base = seeds[0]
+  for hi, hist in enumerate(hists):
+    ref = results[(base, hi)]
+    if len(ref) != len(hist):
+      raise common.Infra("c30 child returned %d results for a history of %d bundles" % (len(ref), len(hist)))
+    for s in seeds[1:] + (extra_seeds if hi >= n_general else []):
+      got = results[(s, hi)]
+      ck.count("cross_process_comparisons", len(ref))
+      for bi, (a, b) in enumerate(zip(ref, got)):
+        if a[:2] == b[:2]:
+          continue
+        what = "reply (stored/undo/direct/retValues)" if a[0] != b[0] else "table data"
+        real = hist[bi]
+        is_undo = real[0][0] == "@undo"
+        k = real[0][1] if is_undo else bi
+        tg = tagmap[hi].get(k)
+        acts = ("undo of " if is_undo else "") + "+".join(sorted(set(x[0] for x in hist[k])))
+        detail = "bundle %d of history; seeds %s vs %s; %s" % (bi, base, s, _first_diff(a, b, base, s))
+        rp = {"history": hist[:bi + 1], "hash_seeds": [base, s], "bundle_index": bi, "failing_bundle": hist[k]}
+        known = order_only_findings(tg, a, b, _upsert_cols(hist[k]))
+        if known:
+          # the tables are identical but the processes' internal orders (columns / tables in the schema) may now differ
+          # and surface later (e.g. in the AddTable that undoes a RemoveTable): the comparison of this history stops
+          if not any([ck.violation(sg, detail, rp) for sg in sorted(known)]):
+            ck.count("order_only_findings_reproduced")
+          break
+        sig = "%s differs between PYTHONHASHSEED values after %s" % (what, acts)
+        if tg:
+          sig += " [one user action with several items: %s]" % ", ".join(tg)
+        ck.violation(sig, detail, rp)
+        break
 
 
 def replay(ck, rp):
@@ -127,11 +788,17 @@ def replay(ck, rp):
   hist, seeds = r["history"], r["hash_seeds"]
   outs = []
   for s in seeds:
-    p = subprocess.run(["/venv/bin/python", "-m", "gx.c30_child"], input=json.dumps([hist]), stdout=subprocess.PIPE,
+    p = subprocess.run(CHILD, input=json.dumps([hist]), stdout=subprocess.PIPE,
                        stderr=subprocess.PIPE, env=dict(os.environ, PYTHONHASHSEED=str(s)), text=True, timeout=3000)
-    outs.append(json.loads(p.stdout)[0])
+    if p.returncode != 0:
+      raise common.Infra("c30 child failed (seed %s): %s" % (s, p.stderr[-500:]))
+    outs.append([x[:2] for x in json.loads(p.stdout)[0]])
   same = outs[0] == outs[1]
   print("replay: outputs %s under PYTHONHASHSEED %s" % ("identical" if same else "DIFFER", seeds))
   if not same:
     ck.violation("replies or data differ between PYTHONHASHSEED values (replay)", "seeds %r" % seeds, r)
   ck.evaluated(); ck.nontrivial_case("replay"); ck.nontrivial_case("replay2")
+
+
+if __name__ == "__main__":
+  child_main()
